@@ -5,7 +5,7 @@ def queries(tier, seed):
     qs = []
     ms = [('std::uint8_t', 0, 0, 8), ('std::int8_t', 0, 0, 8), ('std::uint16_t', 0, 0, 16), ('std::int16_t', 0, 0, 16), ('gil::float32_t', 1, 0, 24)]
     for n in ([1, 2, 5, 6, 7, 8, 10, 16] if tier == 'quick' else range(1, 17)): ms.append(('gil::packed_channel_value<%d>' % n, 0, 1, n))
-    quick = {'std::uint8_t', 'std::int8_t', 'std::uint16_t', 'std::int16_t', 'gil::float32_t', 'gil::packed_channel_value<5>', 'gil::packed_channel_value<10>', 'gil::packed_channel_value<1>'}
+    quick = {'std::uint8_t', 'std::int8_t', 'std::uint16_t', 'std::int16_t', 'gil::float32_t', 'gil::packed_channel_value<5>', 'gil::packed_channel_value<10>', 'gil::packed_channel_value<1>', 'gil::packed_channel_value<16>'}
     for (m, fl, pk, nb) in ms:
         t = 'quick' if m in quick else 'thorough'
         nm = m.replace('std::', '').replace('gil::', '').replace('packed_channel_value<', 'p').replace('>', '').replace('_t', '')
@@ -28,5 +28,5 @@ def queries(tier, seed):
                 for sa in range(0, 256, 5):
                     qs.append(Q('%s/%s/a%02x' % (nm, e[2:], sa), 'C07/mul.cpp', e, defs=d, params=[1, sa, 0], unwind=4, tier='thorough', timeout=900, solvers=['kissat'], note='stratified: upper byte of a concrete, b free; may be inconclusive'))
             else:
-                qs.append(Q('%s/%s' % (nm, e[2:]), 'C07/mul.cpp', e, defs=d, params=[0, 0, 0], unwind=4, tier=t, timeout=240))
+                qs.append(Q('%s/%s' % (nm, e[2:]), 'C07/mul.cpp', e, defs=d, params=[0, 0, 0], unwind=4, tier=('thorough' if (nb == 16 and pk and e == 'h_mul_mono') else t), timeout=240))
     return qs
